@@ -1,6 +1,1169 @@
-//! C18 — not built yet (stub).
-use vf_core::Runner;
+//! C18 — reading AS OF a past point returns what was current then.
+//!
+//! A generated history of statements that commit (real KML through the real
+//! parser and executor, plus host schema activations) runs against a fresh
+//! nexus. After every write a fixed battery of reads is *recorded live* at the
+//! Space sequence `s` the write produced; after every later write, and at the
+//! end, every recording is *replayed* with `AS OF SEQ s` (at the end also
+//! `AS OF TX`, `AS OF TIME` and a `read.snapshot_token` binding) and must return
+//! the recorded response.
+//!
+//! ## What is compared, and what is removed first
+//!
+//! The whole response is compared (status, error object, result rows in order,
+//! field values incl. `_system.version` and timestamps the engine stored, the
+//! projected beliefs, `next_cursor`, and the result context with
+//! `schema_environment_version` and `epistemic_policy` — "resolved under the
+//! schema environment of that point" is part of the property). Only the
+//! coordinates of the READ ITSELF are removed, on both sides, before comparing:
+//!
+//! * `request_id`, `results[].op_id` — request echo (SPECIFICATION §71-73);
+//! * `snapshot` (the response's `SnapshotContext`: `snapshot_seq`,
+//!   `snapshot_token`, §78) and `results[].context.snapshot_seq`,
+//!   `results[].context.cursor` (§50: the coordinate / cursor the read ran at);
+//! * for the one META read of the battery, `DESCRIBE SCHEMA ENVIRONMENT [AS OF …]`:
+//!   `result.snapshot_seq` (meta/describe.rs adds it to the historical answer
+//!   only) and the response / result `context`, which for a META command names
+//!   the environment the introspection itself ran under (always the present);
+//!   the described environment — the answer — is compared in full.
+//!
+//! On the pinned tree a KQL response carries none of the first two groups (the
+//! engine does not emit them), so a replay is in practice compared byte for
+//! byte. No data field is ever removed.
+//!
+//! ## Unordered parts of a projection
+//!
+//! The property says "same projected beliefs". Inside a projected belief the
+//! ledger's id lists (`support.assertion_ids`, `opposition.assertion_ids`,
+//! `explanation.uncertain_assertions`, `explanation.excluded`) and a slot's
+//! `accepted_values` / `candidate_projections` are *sets* — nothing documents an
+//! order for them — and the engine lists them in the order it met the
+//! assertions: numeric id order on a live read (index), lexicographic id order
+//! on a historical read (version log keyed by id text), which differ from the
+//! tenth assertion on. A replay that differs from its recording is therefore
+//! compared once more after sorting exactly these lists (and comparing
+//! non-integer numbers within 1e-9, since the order of a floating-point product
+//! may move the last bit; generated confidences are dyadic, so this is not
+//! expected to matter). If the two agree then, the replay passes and is counted
+//! as `equal_up_to_set_order`. A slot's `leading` is compared exactly unless two
+//! candidates tie for the highest support.
+//!
+//! ## Non-trivial
+//!
+//! A replay is non-trivial when its (recorded = replayed) result differs from
+//! the *current* live result of the same query, i.e. the history between the
+//! recording and the replay really changed what the query sees.
+//!
+//! ## Sub-checks
+//!
+//! * `regressions` — the minimal reproductions of defects this check found
+//!   (fixed inputs; each passes on a repaired tree);
+//! * `histories` — the record / replay battery described above;
+//! * `payload_immutability` — the version log only grows (no row is ever
+//!   rewritten), and the payload fields of an assertion / evidence record
+//!   (SPECIFICATION §13.7, §15.5) are identical in every row of its version log
+//!   and in the element read AS OF every coordinate `HISTORY ELEMENT` lists;
+//! * `purge` — "only an explicit purge removes the past": after `PURGE` of an
+//!   element nothing refers to, every earlier recording replays as itself minus
+//!   the rows that contain the purged id, and nothing else changes.
+//!
+//! Not in the battery: a nested tuple in a tuple endpoint and `SEARCH … AS OF`
+//! (both refused by the engine as unsupported, live and historically alike), and
+//! a slot's `leading` / `accepted_values` projected on their own (a bare value
+//! cannot be recognised as "one of several tied candidates").
+//!
+//! ## Development aids (never set by the dispatcher)
+//!
+//! `VERIF_C18_CASES=n` (histories in the quick tier), `VERIF_C18_NOSHRINK=1`
+//! (report the first failing history as generated), `VERIF_C18_TIMING=1`
+//! (per-history timing on stderr), `VERIF_C18_KNOWN=<sig>` (behave as if the
+//! signature were listed as a known finding).
+
+mod battery;
+mod world;
+
+use anda_kip::Json;
+use battery::*;
+use proptest::prelude::*;
+use serde::{Deserialize, Serialize};
+use serde_json::json;
+use std::collections::{BTreeMap, BTreeSet};
+use vf_core::{CaseCtx, Runner};
+use world::*;
+
+use crate::common::one_line;
+
+// ---------------------------------------------------------------------------
+// normalisation and comparison
+// ---------------------------------------------------------------------------
+
+/// Serialises a response and removes the coordinates of the read itself (see
+/// the module documentation for the list and its grounding).
+fn normalise(response: &anda_kip::Response) -> Json {
+    let mut v = serde_json::to_value(response).unwrap_or(Json::Null);
+    if let Some(o) = v.as_object_mut() {
+        o.remove("request_id");
+        o.remove("snapshot");
+        if let Some(results) = o.get_mut("results").and_then(Json::as_array_mut) {
+            for r in results {
+                if let Some(r) = r.as_object_mut() {
+                    r.remove("op_id");
+                    if let Some(c) = r.get_mut("context").and_then(Json::as_object_mut) {
+                        c.remove("snapshot_seq");
+                        c.remove("cursor");
+                    }
+                }
+            }
+        }
+    }
+    v
+}
+
+/// `DESCRIBE SCHEMA ENVIRONMENT AS OF …` names its own coordinate in the body,
+/// and the context of a META response names the environment the introspection
+/// command itself ran under — the present, whatever coordinate it describes.
+/// Both are coordinates of the read; the described environment is the answer.
+fn strip_meta_coordinate(v: &mut Json) {
+    if let Some(o) = v.as_object_mut() {
+        o.remove("context");
+    }
+    if let Some(results) = v.get_mut("results").and_then(Json::as_array_mut) {
+        for r in results {
+            if let Some(r) = r.as_object_mut() {
+                r.remove("context");
+            }
+            if let Some(o) = r.get_mut("result").and_then(Json::as_object_mut) {
+                o.remove("snapshot_seq");
+            }
+        }
+    }
+}
+
+fn sort_strings(v: &mut Json) {
+    if let Some(a) = v.as_array_mut() {
+        a.sort_by(|x, y| x.as_str().unwrap_or("").cmp(y.as_str().unwrap_or("")));
+    }
+}
+
+/// Sorts the lists of a projection that are sets (module documentation).
+fn canon(v: &mut Json) {
+    match v {
+        Json::Array(a) => {
+            a.iter_mut().for_each(canon);
+            // an `excluded` ledger, also when projected on its own (`?b.explanation.excluded`)
+            if !a.is_empty() && a.iter().all(|x| x.as_object().is_some_and(|o| o.len() == 2 && o.contains_key("assertion_id") && o.contains_key("reason"))) {
+                a.sort_by(|x, y| x["assertion_id"].as_str().unwrap_or("").cmp(y["assertion_id"].as_str().unwrap_or("")));
+            }
+        }
+        Json::Object(o) => {
+            for (_, x) in o.iter_mut() {
+                canon(x);
+            }
+            // the `support` / `opposition` block of a belief (also when projected alone)
+            if o.contains_key("independent_groups") && o.contains_key("score") {
+                if let Some(ids) = o.get_mut("assertion_ids") {
+                    sort_strings(ids);
+                }
+            }
+            // the `explanation` block
+            if o.contains_key("excluded") && o.contains_key("uncertain_assertions") {
+                if let Some(u) = o.get_mut("uncertain_assertions") {
+                    sort_strings(u);
+                }
+                if let Some(e) = o.get_mut("excluded").and_then(Json::as_array_mut) {
+                    e.sort_by(|x, y| x["assertion_id"].as_str().unwrap_or("").cmp(y["assertion_id"].as_str().unwrap_or("")));
+                }
+            }
+            // a slot
+            if o.contains_key("candidate_projections") && o.contains_key("accepted_values") {
+                if let Some(a) = o.get_mut("accepted_values") {
+                    sort_strings(a);
+                }
+                let mut tie = false;
+                if let Some(c) = o.get_mut("candidate_projections").and_then(Json::as_array_mut) {
+                    c.sort_by(|x, y| x["proposition_id"].as_str().unwrap_or("").cmp(y["proposition_id"].as_str().unwrap_or("")));
+                    let scores: Vec<f64> = c.iter().filter(|b| b["status"] != "insufficient").map(|b| b["support"]["score"].as_f64().unwrap_or(0.0)).collect();
+                    let max = scores.iter().cloned().fold(f64::MIN, f64::max);
+                    tie = scores.iter().filter(|s| (**s - max).abs() <= 1e-9).count() > 1;
+                }
+                if tie {
+                    o.insert("leading".into(), json!("<tie for the highest support>"));
+                }
+            }
+        }
+        _ => {}
+    }
+}
+
+/// Equality with non-integer numbers compared within 1e-9.
+fn near(a: &Json, b: &Json) -> bool {
+    match (a, b) {
+        (Json::Number(x), Json::Number(y)) => {
+            if x == y {
+                return true;
+            }
+            match (x.as_f64(), y.as_f64()) {
+                (Some(p), Some(q)) if !(x.is_i64() || x.is_u64()) || !(y.is_i64() || y.is_u64()) => (p - q).abs() <= 1e-9 * p.abs().max(1.0),
+                _ => false,
+            }
+        }
+        (Json::Array(x), Json::Array(y)) => x.len() == y.len() && x.iter().zip(y).all(|(p, q)| near(p, q)),
+        (Json::Object(x), Json::Object(y)) => x.len() == y.len() && x.iter().all(|(k, p)| y.get(k).map(|q| near(p, q)).unwrap_or(false)),
+        _ => a == b,
+    }
+}
+
+#[derive(PartialEq)]
+enum Same {
+    Exact,
+    UpToSetOrder,
+    No,
+}
+
+fn same(recorded: &Json, replayed: &Json) -> Same {
+    if recorded == replayed {
+        return Same::Exact;
+    }
+    let (mut a, mut b) = (recorded.clone(), replayed.clone());
+    canon(&mut a);
+    canon(&mut b);
+    if near(&a, &b) { Same::UpToSetOrder } else { Same::No }
+}
+
+/// The first place two JSON values differ, as a path and the two values.
+fn first_diff(a: &Json, b: &Json, path: &str) -> Option<String> {
+    let cut = |v: &Json| {
+        let s = v.to_string();
+        if s.len() > 700 { format!("{}…", s.chars().take(700).collect::<String>()) } else { s }
+    };
+    match (a, b) {
+        (Json::Object(x), Json::Object(y)) => {
+            let keys: BTreeSet<&String> = x.keys().chain(y.keys()).collect();
+            for k in keys {
+                match (x.get(k), y.get(k)) {
+                    (Some(p), Some(q)) => {
+                        if let Some(d) = first_diff(p, q, &format!("{path}/{k}")) {
+                            return Some(d);
+                        }
+                    }
+                    (Some(p), None) => return Some(format!("{path}/{k}: recorded {} , replayed <absent>", cut(p))),
+                    (None, Some(q)) => return Some(format!("{path}/{k}: recorded <absent>, replayed {}", cut(q))),
+                    (None, None) => {}
+                }
+            }
+            None
+        }
+        (Json::Array(x), Json::Array(y)) => {
+            if x.len() != y.len() {
+                return Some(format!("{path}: recorded {} entries, replayed {} entries\n      recorded {}\n      replayed {}", x.len(), y.len(), cut(a), cut(b)));
+            }
+            x.iter().zip(y).enumerate().find_map(|(i, (p, q))| first_diff(p, q, &format!("{path}/{i}")))
+        }
+        _ if a == b => None,
+        _ => Some(format!("{path}: recorded {} , replayed {}", cut(a), cut(b))),
+    }
+}
+
+// ---------------------------------------------------------------------------
+// failures
+// ---------------------------------------------------------------------------
+
+struct Fail {
+    sig: String,
+    msg: String,
+}
+
+thread_local! {
+    /// Once a history has failed on this worker thread, everything the runner
+    /// evaluates on it afterwards is a shrink candidate. Those are asked only
+    /// the battery query that failed (a subset of the full comparison, so a
+    /// candidate that fails here fails the full check too), which makes
+    /// shrinking ~50x cheaper. A `replay <file>` run is a fresh process and
+    /// always asks the whole battery.
+    static FOCUS: std::cell::Cell<Option<usize>> = const { std::cell::Cell::new(None) };
+}
+
+fn harness<T>(r: Result<T, String>) -> Result<T, Fail> {
+    r.map_err(|e| Fail { sig: "harness".into(), msg: e })
+}
+
+fn wrap<C>(f: impl Fn(&C, &mut CaseCtx) -> Result<(), Fail>) -> impl Fn(&C, &mut CaseCtx) -> Result<(), String> {
+    move |c, ctx| match f(c, ctx) {
+        Ok(()) => Ok(()),
+        Err(Fail { sig, msg }) => ctx.fail_sig(format!("c18:{sig}"), msg),
+    }
+}
+
+fn history_text(w: &World) -> String {
+    w.log.iter().enumerate().map(|(i, l)| format!("    {i:>2}. {l}")).collect::<Vec<_>>().join("\n")
+}
+
+// ---------------------------------------------------------------------------
+// known findings
+// ---------------------------------------------------------------------------
+
+/// Defect found by this check on the pinned tree (repaired since by the commit
+/// "fix: a historical read matches an explicit state matcher"; kept as a
+/// regression input and as the signature a recurrence is reported with): on the
+/// historical path `match_element` decided every matcher key against the
+/// rendered view (`view_key`), which had no mapping for `state` (the view
+/// renders it as `_system.state`), so `{state: "archived"}` matched nothing AS
+/// OF any coordinate — also the present one — while the live read answers from
+/// the `state` index. Minimal
+/// reproduction: `CREATE CONCEPT ?c { TYPE "Person" NAME "Alice" }`, `ARCHIVE
+/// "C-1"` (sequence 2); `FIND(?c.id) WHERE { ?c CONCEPT {state: "archived"} }`
+/// returned `["C-1"]`, the same text with `AS OF SEQ 2` returned `[]`.
+const SIG_STATE: &str = "explicit-state-matcher-ignored-as-of";
+
+/// Which listed (status `known`) findings the battery has to step around. When
+/// a signature is not listed, the affected reads are compared like all others
+/// and a difference is a violation carrying that signature.
+#[derive(Clone, Default)]
+struct Cfg {
+    known_state: bool,
+    /// every signature listed as `known` for this property (a failure carrying
+    /// one of them is tolerated by the runner, so it must not switch the worker
+    /// into shrink mode)
+    listed: std::sync::Arc<Vec<String>>,
+}
+
+impl Cfg {
+    fn from(r: &Runner) -> Cfg {
+        // development aid: VERIF_C18_KNOWN=<sig>[,<sig>] behaves as if listed
+        let dev = std::env::var("VERIF_C18_KNOWN").unwrap_or_default();
+        let listed = |sig: &str| r.report_known(&format!("c18:{sig}")) || dev.split(',').any(|x| x == sig);
+        let all = r.known.entries.iter().filter(|e| e.property == r.property && e.status == "known").map(|e| e.signature.clone()).collect();
+        Cfg { known_state: listed(SIG_STATE), listed: std::sync::Arc::new(all) }
+    }
+}
+
+// ---------------------------------------------------------------------------
+// recording and replay
+// ---------------------------------------------------------------------------
+
+/// The battery as answered live when `seq` was the present.
+struct Recording {
+    seq: u64,
+    /// index into the world's log of the statement that produced `seq`
+    after_stmt: usize,
+    tx: Option<String>,
+    at: Option<String>,
+    token: String,
+    results: Vec<Json>,
+}
+
+fn ask(w: &World, q: &Q, as_of: &str, params: &serde_json::Map<String, Json>) -> Json {
+    let mut v = normalise(&w.env.exec(&q.text(as_of), Json::Object(params.clone())));
+    if q.meta {
+        strip_meta_coordinate(&mut v);
+    }
+    v
+}
+
+fn record(w: &World, battery: &[Q], params: &serde_json::Map<String, Json>) -> Result<Recording, String> {
+    let (seq, token, _) = w.snapshot()?;
+    let (tx, at) = match &w.last_commit {
+        Some(c) if c.seq == seq => (c.tx.clone(), c.at.clone()),
+        _ => (None, None),
+    };
+    let focus = FOCUS.with(|f| f.get());
+    let results = battery.iter().enumerate().map(|(i, q)| if focus.is_none_or(|f| f == i) { ask(w, q, "", params) } else { Json::Null }).collect();
+    Ok(Recording { seq, after_stmt: w.log.len().saturating_sub(1), tx, at, token, results })
+}
+
+#[derive(Default)]
+struct Tally {
+    replays: u64,
+    nontrivial: u64,
+    set_order: u64,
+    excluded_state: u64,
+    by_family: BTreeMap<&'static str, u64>,
+    between: BTreeMap<&'static str, u64>,
+}
+
+/// How a replay names its coordinate.
+enum Via<'a> {
+    Seq,
+    Tx(&'a str),
+    Time(&'a str),
+    Token,
+}
+
+/// Replays the queries `which` of recording `rec` and compares them with what
+/// was recorded. `now` is the most recent recording (the present).
+#[allow(clippy::too_many_arguments)]
+fn replay(cfg: &Cfg, w: &World, battery: &[Q], params: &serde_json::Map<String, Json>, rec: &Recording, now: &Recording, via: &Via, which: &mut dyn Iterator<Item = usize>, kinds_between: &BTreeSet<&'static str>, tally: &mut Tally) -> Result<(), Fail> {
+    let mut p = params.clone();
+    let (as_of, how) = match via {
+        Via::Seq => (format!(" AS OF SEQ {}", rec.seq), format!("AS OF SEQ {}", rec.seq)),
+        Via::Tx(tx) => {
+            p.insert("asof".into(), json!(tx));
+            (" AS OF TX :asof".to_string(), format!("AS OF TX {tx:?}"))
+        }
+        Via::Time(t) => {
+            p.insert("asof".into(), json!(t));
+            (" AS OF TIME :asof".to_string(), format!("AS OF TIME {t:?}"))
+        }
+        Via::Token => (String::new(), format!("read.snapshot_token of sequence {}", rec.seq)),
+    };
+    let focus = FOCUS.with(|f| f.get());
+    for i in which {
+        if focus.is_some_and(|f| f != i) {
+            continue;
+        }
+        let q = &battery[i];
+        if q.explicit_state && cfg.known_state {
+            tally.excluded_state += 1;
+            continue;
+        }
+        let got = match via {
+            Via::Token => {
+                if q.meta {
+                    continue; // META ignores the envelope binding; it takes AS OF itself
+                }
+                normalise(&exec_bound(&w.env, &q.text(""), &p, &rec.token))
+            }
+            _ => ask(w, q, &as_of, &p),
+        };
+        tally.replays += 1;
+        match same(&rec.results[i], &got) {
+            Same::Exact => {}
+            Same::UpToSetOrder => tally.set_order += 1,
+            Same::No => {
+                let diff = first_diff(&rec.results[i], &got, "").unwrap_or_default();
+                let status = |v: &Json| v["status"].as_str().unwrap_or("?").to_string();
+                let sig = if status(&rec.results[i]) != status(&got) { "status-differs" } else { "result-differs" };
+                let sig = if q.explicit_state { SIG_STATE.to_string() } else { format!("{}:{sig}", q.family) };
+                if !cfg.listed.contains(&format!("c18:{sig}")) {
+                    FOCUS.with(|f| f.set(Some(i)));
+                }
+                return Err(Fail {
+                    sig,
+                    msg: format!(
+                        "the read recorded live at sequence {} (after statement {}) and replayed {how} after statement {} (present sequence {}) differ\n  query: {}\n  parameters: {}\n  first difference at {diff}\n  history:\n{}",
+                        rec.seq,
+                        rec.after_stmt,
+                        now.after_stmt,
+                        now.seq,
+                        one_line(&q.text(&as_of)),
+                        Json::Object(p.clone()),
+                        history_text(w)
+                    ),
+                });
+            }
+        }
+        if rec.results[i] != now.results[i] {
+            tally.nontrivial += 1;
+            *tally.by_family.entry(q.family).or_insert(0) += 1;
+            for k in kinds_between {
+                *tally.between.entry(k).or_insert(0) += 1;
+            }
+        }
+    }
+    Ok(())
+}
+
+// ---------------------------------------------------------------------------
+// strategies
+// ---------------------------------------------------------------------------
+
+fn claim_strategy() -> impl Strategy<Value = Claim> {
+    (
+        any::<u16>(),
+        prop_oneof![6 => Just(0u8), 3 => Just(1u8), 1 => Just(2u8)],
+        prop_oneof![1 => Just(None), 6 => (1u8..=8).prop_map(Some)],
+        prop_oneof![5 => Just(0u8), 3 => Just(1u8), 1 => 2u8..6],
+        0u8..8,
+        prop_oneof![5 => Just(0u8), 1 => Just(1u8), 2 => Just(2u8), 1 => Just(3u8), 1 => Just(4u8)],
+    )
+        .prop_map(|(actor, stance, conf, mode, ev, win)| Claim { actor, stance, conf, mode, ev, win })
+}
+
+/// Statements of the `histories` sub-check.
+fn stmt_strategy() -> impl Strategy<Value = Stmt> {
+    let ix = any::<u16>;
+    prop_oneof![
+        3 => (0u8..3, prop::option::of(0u8..6), any::<bool>(), prop::option::of(ix())).prop_map(|(ty, tier, note, dep)| Stmt::CreateConcept { ty, tier, note, dep }),
+        1 => Just(Stmt::CreateEvidence),
+        1 => ix().prop_map(|input| Stmt::CreateActivity { input }),
+        3 => (ix(), 0u8..3, ix()).prop_map(|(subj, pred, obj)| Stmt::EnsureProp { subj, pred, obj }),
+        8 => (prop_oneof![3 => Just(0u16), 2 => ix()], ix(), prop_oneof![4 => Just(0u8), 1 => Just(1u8)], claim_strategy()).prop_map(|(subj, val, pred, claim)| Stmt::Assert { subj, val, pred, claim, superseding: None }),
+        3 => (claim_strategy(), ix()).prop_map(|(claim, old)| Stmt::Assert { subj: 0, val: 0, pred: 0, claim, superseding: Some(old) }),
+        3 => (ix(), ix(), 0u8..6, prop::collection::vec(claim_strategy(), 1..=3)).prop_map(|(val, from, tier, claims)| Stmt::Block { val, from, tier, claims }),
+        3 => (ix(), 0u8..6).prop_map(|(target, tier)| Stmt::SetAttr { target, tier }),
+        2 => ix().prop_map(|target| Stmt::UnsetAttr { target }),
+        3 => (0u8..3, ix()).prop_map(|(ty, target)| Stmt::Rename { ty, target }),
+        2 => (ix(), 0u8..9).prop_map(|(target, salience)| Stmt::SetFacet { target, salience }),
+        2 => (ix(), ix()).prop_map(|(a, b)| Stmt::SetStructural { a, b }),
+        2 => ix().prop_map(|a| Stmt::UnsetStructural { a }),
+        2 => (0u8..6, 0u8..4).prop_map(|(min_tier, add)| Stmt::UpdateWhere { min_tier, add }),
+        2 => ix().prop_map(|target| Stmt::PropAttr { target }),
+        6 => (0u8..6, ix(), any::<bool>()).prop_map(|(kind, target, by_where)| Stmt::Archive { kind, target, by_where }),
+        5 => (0u8..6, ix()).prop_map(|(kind, target)| Stmt::Tombstone { kind, target }),
+        5 => ix().prop_map(|target| Stmt::Retract { target }),
+        3 => (ix(), ix()).prop_map(|(old, new)| Stmt::Supersede { old, new }),
+        2 => (ix(), ix()).prop_map(|(old, new)| Stmt::CorrectEvidence { old, new }),
+        4 => (0u8..3, ix(), ix()).prop_map(|(ty, a, b)| Stmt::Merge { ty, a, b }),
+        3 => (0u8..6, ix(), prop::bool::weighted(0.2)).prop_map(|(kind, target, hold)| Stmt::SetRetention { kind, target, hold }),
+        1 => ix().prop_map(|target| Stmt::Transition { target }),
+        3 => (0u8..2).prop_map(|which| Stmt::Activate { which }),
+    ]
+}
+
+#[derive(Clone, Debug, Serialize, Deserialize)]
+pub struct Hist {
+    pub stmts: Vec<Stmt>,
+}
+
+fn hist_strategy() -> BoxedStrategy<Hist> {
+    let s = prop::collection::vec(stmt_strategy(), 6..=16).prop_map(|stmts| Hist { stmts });
+    // development aid: report the first failing history as generated
+    if std::env::var("VERIF_C18_NOSHRINK").is_ok() { s.no_shrink().boxed() } else { s.boxed() }
+}
+
+// ---------------------------------------------------------------------------
+// sub-check: histories
+// ---------------------------------------------------------------------------
+
+fn run_history(cfg: &Cfg, c: &Hist, ctx: &mut CaseCtx) -> Result<(), Fail> {
+    let t_start = std::time::Instant::now();
+    let battery = battery();
+    let mut w = harness(World::new("c18h"))?;
+    let params = w.battery_params();
+    let mut tally = Tally::default();
+    let mut labels: BTreeSet<String> = BTreeSet::new();
+    let all = || 0..battery.len();
+
+    let mut recs: Vec<Recording> = vec![harness(record(&w, &battery, &params))?];
+    // kinds[k] = kind of the statement that produced recording k
+    let mut kinds: Vec<&'static str> = vec!["seed"];
+    {
+        let r = &recs[0];
+        replay(cfg, &w, &battery, &params, r, r, &Via::Seq, &mut all(), &BTreeSet::new(), &mut tally)?;
+    }
+    for stmt in &c.stmts {
+        let done = w.apply(stmt);
+        labels.insert(format!("stmt:{}:{}", stmt.kind(), done.tag()));
+        let (seq, _, _) = harness(w.snapshot())?;
+        if seq == recs.last().unwrap().seq {
+            continue; // nothing was written, not even a sequence was consumed
+        }
+        if done != Done::Committed {
+            labels.insert("sequence_consumed_without_commit".into());
+        }
+        recs.push(harness(record(&w, &battery, &params))?);
+        kinds.push(if done == Done::Committed { stmt.kind() } else { "not_committed" });
+        let now = recs.last().unwrap();
+        for (k, rec) in recs.iter().enumerate() {
+            let between: BTreeSet<&'static str> = kinds[k + 1..].iter().copied().filter(|x| *x != "not_committed").collect();
+            replay(cfg, &w, &battery, &params, rec, now, &Via::Seq, &mut all(), &between, &mut tally)?;
+        }
+    }
+
+    // at the end: the other three ways to name a coordinate, each over a third
+    // of the battery (rotating with the recording, so every query gets every way)
+    let journal = harness(journal(&w))?;
+    let now = recs.last().unwrap();
+    for (k, rec) in recs.iter().enumerate() {
+        let between: BTreeSet<&'static str> = kinds[k + 1..].iter().copied().filter(|x| *x != "not_committed").collect();
+        let third = |r: usize| (0..battery.len()).filter(move |i| (i + k) % 3 == r);
+        let row = journal.iter().find(|j| j.seq == rec.seq);
+        let tx = rec.tx.clone().or_else(|| row.map(|j| j.tx.clone()));
+        if let Some(tx) = &tx {
+            replay(cfg, &w, &battery, &params, rec, now, &Via::Tx(tx), &mut third(0), &between, &mut tally)?;
+            ctx.count("replays_as_of_tx", 1);
+        }
+        // AS OF TIME names "the last transaction committed by then": usable when
+        // no later journalled transaction shares (or precedes) this timestamp
+        let at = rec.at.clone().or_else(|| row.map(|j| j.at.clone()));
+        if let Some(at) = &at {
+            if journal.iter().all(|j| j.seq <= rec.seq || j.at.as_str() > at.as_str()) && row.is_some() {
+                replay(cfg, &w, &battery, &params, rec, now, &Via::Time(at), &mut third(1), &between, &mut tally)?;
+                ctx.count("replays_as_of_time", 1);
+            } else {
+                ctx.count("as_of_time_ambiguous_timestamp", 1);
+            }
+        }
+        if !rec.token.is_empty() {
+            replay(cfg, &w, &battery, &params, rec, now, &Via::Token, &mut third(2), &between, &mut tally)?;
+            ctx.count("replays_bound_by_token", 1);
+        }
+    }
+
+    finish_tally(ctx, &tally, labels, recs.len());
+    if std::env::var("VERIF_C18_TIMING").is_ok() {
+        eprintln!("[c18] history: {} stmts, {} recordings, {} replays ({} non-trivial), {:.2}s", c.stmts.len(), recs.len(), tally.replays, tally.nontrivial, t_start.elapsed().as_secs_f64());
+    }
+    Ok(())
+}
+
+fn finish_tally(ctx: &mut CaseCtx, tally: &Tally, labels: BTreeSet<String>, recordings: usize) {
+    ctx.nontrivial = tally.nontrivial > 0;
+    ctx.count("recordings", recordings as u64);
+    ctx.count("replays", tally.replays);
+    ctx.count("replays_nontrivial", tally.nontrivial);
+    ctx.count("replays_equal_up_to_set_order", tally.set_order);
+    if tally.excluded_state > 0 {
+        ctx.count("replays_excluded_by_known_finding", tally.excluded_state);
+        ctx.excluded.push(format!("c18:{SIG_STATE}"));
+    }
+    for (f, n) in &tally.by_family {
+        ctx.count(&format!("nontrivial:{f}"), *n);
+        ctx.label(format!("family_with_nontrivial_replay:{f}"));
+    }
+    for (k, n) in &tally.between {
+        ctx.count(&format!("between:{k}"), *n);
+        ctx.label(format!("nontrivial_replay_across:{k}"));
+    }
+    for l in labels {
+        ctx.label(l);
+    }
+}
+
+/// One journalled transaction as `HISTORY SPACE` lists it.
+struct JournalRow {
+    seq: u64,
+    tx: String,
+    at: String,
+}
+
+fn journal(w: &World) -> Result<Vec<JournalRow>, String> {
+    let body = w.env.exec_ok("HISTORY SPACE", Json::Null)?;
+    let rows = body.as_array().ok_or_else(|| format!("HISTORY SPACE is not a list: {body}"))?;
+    Ok(rows
+        .iter()
+        .filter_map(|r| Some(JournalRow { seq: r["space_seq"].as_u64()?, tx: r["tx_id"].as_str()?.to_string(), at: r["committed_at"].as_str()?.to_string() }))
+        .collect())
+}
+
+// ---------------------------------------------------------------------------
+// sub-check: payload_immutability
+// ---------------------------------------------------------------------------
+
+/// Statements of the payload sub-check: the lifecycle of assertions and
+/// evidence, plus UPDATEs aimed at their payload (which must be refused and
+/// change nothing).
+fn payload_stmt_strategy() -> impl Strategy<Value = Stmt> {
+    let ix = any::<u16>;
+    prop_oneof![
+        6 => (prop_oneof![3 => Just(0u16), 2 => ix()], ix(), prop_oneof![4 => Just(0u8), 1 => Just(1u8)], claim_strategy()).prop_map(|(subj, val, pred, claim)| Stmt::Assert { subj, val, pred, claim, superseding: None }),
+        4 => (claim_strategy(), ix()).prop_map(|(claim, old)| Stmt::Assert { subj: 0, val: 0, pred: 0, claim, superseding: Some(old) }),
+        2 => (ix(), ix(), 0u8..6, prop::collection::vec(claim_strategy(), 1..=3)).prop_map(|(val, from, tier, claims)| Stmt::Block { val, from, tier, claims }),
+        2 => Just(Stmt::CreateEvidence),
+        5 => ix().prop_map(|target| Stmt::Retract { target }),
+        4 => (ix(), ix()).prop_map(|(old, new)| Stmt::Supersede { old, new }),
+        4 => (ix(), ix()).prop_map(|(old, new)| Stmt::CorrectEvidence { old, new }),
+        5 => (4u8..6, ix()).prop_map(|(kind, target)| Stmt::Archive { kind, target, by_where: false }),
+        4 => (4u8..6, ix()).prop_map(|(kind, target)| Stmt::Tombstone { kind, target }),
+        5 => (4u8..6, ix(), prop::bool::weighted(0.2)).prop_map(|(kind, target, hold)| Stmt::SetRetention { kind, target, hold }),
+        4 => (0u8..2, ix(), 0u8..4).prop_map(|(kind, target, what)| Stmt::IllegalUpdate { kind, target, what }),
+        // things that happen to what an assertion points at
+        1 => (2u8..4, ix()).prop_map(|(kind, target)| Stmt::Archive { kind, target, by_where: false }),
+        1 => (0u8..3, ix(), ix()).prop_map(|(ty, a, b)| Stmt::Merge { ty, a, b }),
+        1 => (0u8..2).prop_map(|which| Stmt::Activate { which }),
+    ]
+}
+
+fn payload_hist_strategy() -> impl Strategy<Value = Hist> {
+    prop::collection::vec(payload_stmt_strategy(), 5..=14).prop_map(|stmts| Hist { stmts })
+}
+
+/// Payload fields of the rendered view (§13.7: proposition, asserted_by,
+/// stance, mode, confidence, asserted_at, valid_time, initial Evidence
+/// citations; §15.5: the Evidence payload and observation identity).
+const ASSERTION_VIEW_PAYLOAD: [&str; 9] = ["proposition_id", "asserted_by", "stance", "mode", "confidence", "asserted_at", "valid_time", "evidence_refs", "context_refs"];
+const EVIDENCE_VIEW_PAYLOAD: [&str; 8] = ["evidence_class", "payload", "content_ref", "content_digest", "media_type", "observed_at", "source_refs", "generated_by"];
+/// The same fields as stored in a version-log row.
+const ASSERTION_ROW_PAYLOAD: [&str; 12] = ["proposition_id", "asserted_by", "asserted_by_key", "stance", "mode", "confidence", "asserted_at", "valid_from", "valid_until", "evidence_refs", "evidence_ids", "context_refs"];
+const EVIDENCE_ROW_PAYLOAD: [&str; 10] = ["evidence_class", "payload_mode", "payload_inline", "content_ref", "content_digest", "media_type", "observed_at", "source_refs", "source_keys", "generated_by"];
+
+fn project_fields(v: &Json, keys: &[&str]) -> Json {
+    let mut m = serde_json::Map::new();
+    for k in keys {
+        m.insert(k.to_string(), v.get(*k).cloned().unwrap_or(Json::Null));
+    }
+    Json::Object(m)
+}
+
+/// The whole version log, keyed by (element, version), through the store's
+/// public collection handle.
+fn version_log(w: &World) -> Result<BTreeMap<(String, u64), Json>, String> {
+    use anda_cognitive_nexus::store::rows::ElementVersionRow;
+    let coll = w.env.nexus.store.element_versions();
+    let mut out = BTreeMap::new();
+    for id in coll.ids() {
+        let row: ElementVersionRow = w.env.run(coll.get_as(id)).map_err(|e| format!("version log row {id}: {e:?}"))?;
+        let key = (row.element.clone(), row.version);
+        let v = json!({"seq": row.seq, "tx_id": row.tx_id, "op": row.op, "kind": row.kind, "space": row.space, "row": row.row});
+        if out.insert(key.clone(), v).is_some() {
+            return Err(format!("the version log holds two rows for version {} of {}", key.1, key.0));
+        }
+    }
+    Ok(out)
+}
+
+fn run_payload(c: &Hist, ctx: &mut CaseCtx) -> Result<(), Fail> {
+    let mut w = harness(World::new("c18p"))?;
+    let mut labels: BTreeSet<String> = BTreeSet::new();
+    let mut log = harness(version_log(&w))?;
+    for stmt in &c.stmts {
+        let done = w.apply(stmt);
+        labels.insert(format!("stmt:{}:{}", stmt.kind(), done.tag()));
+        // (a) the version log only grows: a row, once written, is never rewritten
+        let after = harness(version_log(&w))?;
+        for (key, old) in &log {
+            match after.get(key) {
+                Some(new) if new == old => {}
+                Some(new) => {
+                    return Err(Fail {
+                        sig: format!("version-row-rewritten:{}", stmt.kind()),
+                        msg: format!(
+                            "version {} of {} was rewritten in the version log by a later statement\n  {}\n  history:\n{}",
+                            key.1,
+                            key.0,
+                            first_diff(old, new, "").unwrap_or_default(),
+                            history_text(&w)
+                        ),
+                    });
+                }
+                None => {
+                    return Err(Fail { sig: format!("version-row-lost:{}", stmt.kind()), msg: format!("version {} of {} disappeared from the version log (no PURGE was issued)\n  history:\n{}", key.1, key.0, history_text(&w)) });
+                }
+            }
+        }
+        if done != Done::Committed && after.len() != log.len() {
+            return Err(Fail { sig: format!("version-row-without-commit:{}", stmt.kind()), msg: format!("a statement that did not commit ({}) added {} version rows\n  history:\n{}", done.tag(), after.len() - log.len(), history_text(&w)) });
+        }
+        log = after;
+    }
+
+    // (b) every version-log row of an assertion / evidence record carries the same payload
+    let mut by_element: BTreeMap<String, Vec<(u64, &Json)>> = BTreeMap::new();
+    for ((element, version), v) in &log {
+        if v["kind"] == "assertion" || v["kind"] == "evidence" {
+            by_element.entry(element.clone()).or_default().push((*version, v));
+        }
+    }
+    let mut multi = 0u64;
+    let mut max_versions = 0usize;
+    for (element, versions) in &by_element {
+        let keys: &[&str] = if versions[0].1["kind"] == "assertion" { &ASSERTION_ROW_PAYLOAD } else { &EVIDENCE_ROW_PAYLOAD };
+        let first = project_fields(&versions[0].1["row"], keys);
+        for (n, (version, v)) in versions.iter().enumerate() {
+            if *version != n as u64 + 1 {
+                return Err(Fail { sig: "version-gap".into(), msg: format!("{element}: the version log holds versions {:?}, not 1..n\n  history:\n{}", versions.iter().map(|x| x.0).collect::<Vec<_>>(), history_text(&w)) });
+            }
+            let p = project_fields(&v["row"], keys);
+            if p != first {
+                return Err(Fail {
+                    sig: format!("payload-changed:log:{}", v["op"].as_str().unwrap_or("?")),
+                    msg: format!(
+                        "{element}: the epistemic payload stored in version {version} (op {}) differs from version 1\n  {}\n  history:\n{}",
+                        v["op"],
+                        first_diff(&first, &p, "").unwrap_or_default(),
+                        history_text(&w)
+                    ),
+                });
+            }
+        }
+        if versions.len() >= 2 {
+            multi += 1;
+        }
+        max_versions = max_versions.max(versions.len());
+    }
+
+    // (c) the same through a session: HISTORY ELEMENT lists the coordinates, the
+    // element is read AS OF each of them, and now
+    let mut reads = 0u64;
+    for (element, versions) in &by_element {
+        let assertion = versions[0].1["kind"] == "assertion";
+        let (pattern, keys): (&str, &[&str]) = if assertion { ("ASSERTION", &ASSERTION_VIEW_PAYLOAD) } else { ("EVIDENCE", &EVIDENCE_VIEW_PAYLOAD) };
+        let hist = harness(w.env.exec_ok("HISTORY ELEMENT :id", json!({"id": element})))?;
+        let seqs: Vec<u64> = hist.as_array().map(|a| a.iter().filter_map(|e| e["space_seq"].as_u64()).collect()).unwrap_or_default();
+        if seqs.len() != versions.len() {
+            return Err(Fail { sig: "history-element-disagrees-with-log".into(), msg: format!("{element}: HISTORY ELEMENT lists {} transactions, the version log {} versions\n  history:\n{}", seqs.len(), versions.len(), history_text(&w)) });
+        }
+        let mut first: Option<(String, Json)> = None;
+        let coords: Vec<String> = seqs.iter().map(|s| format!(" AS OF SEQ {s}")).chain([String::new()]).collect();
+        for as_of in coords {
+            let text = format!("FIND(?x) WHERE {{ ?x {pattern} {{id: :id, state: ?st}} }}{as_of}");
+            let body = harness(w.env.exec_ok(&text, json!({"id": element})))?;
+            reads += 1;
+            let rows = body.as_array().cloned().unwrap_or_default();
+            if rows.len() != 1 {
+                return Err(Fail { sig: "version-unreadable".into(), msg: format!("{element}: `{text}` returned {} rows, expected the one element\n  history:\n{}", rows.len(), history_text(&w)) });
+            }
+            let p = project_fields(&rows[0], keys);
+            match &first {
+                None => first = Some((text, p)),
+                Some((t0, p0)) if *p0 != p => {
+                    return Err(Fail {
+                        sig: "payload-changed:view".into(),
+                        msg: format!("{element}: the epistemic payload differs between two versions\n  `{t0}`\n  `{text}`\n  {}\n  history:\n{}", first_diff(p0, &p, "").unwrap_or_default(), history_text(&w)),
+                    });
+                }
+                _ => {}
+            }
+        }
+    }
+    ctx.nontrivial = multi > 0;
+    ctx.count("assertion_or_evidence_ids", by_element.len() as u64);
+    ctx.count("ids_with_two_or_more_versions", multi);
+    ctx.count("historical_element_reads", reads);
+    ctx.label(format!("max_versions_of_one_id:{}", max_versions.min(6)));
+    for l in labels {
+        ctx.label(l);
+    }
+    Ok(())
+}
+
+// ---------------------------------------------------------------------------
+// sub-check: purge
+// ---------------------------------------------------------------------------
+
+#[derive(Clone, Debug, Serialize, Deserialize)]
+pub struct PurgeCase {
+    /// 0 concept, 1 evidence, 2 proposition, 3 assertion
+    pub victim: u8,
+    /// statements between the victim's creation and its purge (they may touch the victim)
+    pub before: Vec<Stmt>,
+    /// statements after the purge
+    pub after: Vec<Stmt>,
+}
+
+/// Statements of the purge sub-check: no schema activation, biased towards
+/// updates (the victim is the first service / last evidence … so index 0 and
+/// the high indices hit it).
+fn purge_stmt_strategy() -> impl Strategy<Value = Stmt> {
+    let ix = || prop_oneof![2 => any::<u16>(), 1 => Just(u16::MAX)];
+    prop_oneof![
+        2 => (0u8..3, prop::option::of(0u8..6), any::<bool>()).prop_map(|(ty, tier, note)| Stmt::CreateConcept { ty, tier, note, dep: None }),
+        1 => Just(Stmt::CreateEvidence),
+        2 => (ix(), 0u8..2, ix()).prop_map(|(subj, pred, obj)| Stmt::EnsureProp { subj, pred, obj }),
+        3 => (ix(), ix(), 0u8..2, claim_strategy()).prop_map(|(subj, val, pred, claim)| Stmt::Assert { subj, val, pred, claim, superseding: None }),
+        4 => (ix(), 0u8..6).prop_map(|(target, tier)| Stmt::SetAttr { target, tier }),
+        2 => ix().prop_map(|target| Stmt::UnsetAttr { target }),
+        3 => (0u8..1, ix()).prop_map(|(ty, target)| Stmt::Rename { ty, target }),
+        2 => (ix(), 0u8..9).prop_map(|(target, salience)| Stmt::SetFacet { target, salience }),
+        2 => ix().prop_map(|target| Stmt::PropAttr { target }),
+        3 => (0u8..6, ix()).prop_map(|(kind, target)| Stmt::Archive { kind, target, by_where: false }),
+        2 => (0u8..6, ix()).prop_map(|(kind, target)| Stmt::Tombstone { kind, target }),
+        2 => ix().prop_map(|target| Stmt::Retract { target }),
+        3 => (0u8..6, ix()).prop_map(|(kind, target)| Stmt::SetRetention { kind, target, hold: false }),
+        1 => (0u8..6, 0u8..4).prop_map(|(min_tier, add)| Stmt::UpdateWhere { min_tier, add }),
+    ]
+}
+
+fn purge_case_strategy() -> impl Strategy<Value = PurgeCase> {
+    (0u8..4, prop::collection::vec(purge_stmt_strategy(), 1..=6), prop::collection::vec(purge_stmt_strategy(), 0..=3)).prop_map(|(victim, before, after)| PurgeCase { victim, before, after })
+}
+
+fn mentions(v: &Json, id: &str) -> bool {
+    match v {
+        Json::String(s) => s == id,
+        Json::Array(a) => a.iter().any(|x| mentions(x, id)),
+        Json::Object(o) => o.values().any(|x| mentions(x, id)),
+        _ => false,
+    }
+}
+
+/// What a recording must look like once `victim` has been purged: the rows
+/// that are about the victim are gone, an aggregate counts the remaining rows
+/// of its row query, everything else is untouched.
+fn without(results: &[Json], battery: &[PQ], victim: &str) -> Vec<Json> {
+    let rows_of = |v: &Json| v["results"][0]["result"].as_array().cloned();
+    let filtered: Vec<Option<Vec<Json>>> = results.iter().map(|v| rows_of(v).map(|rows| rows.into_iter().filter(|r| !mentions(r, victim)).collect())).collect();
+    results
+        .iter()
+        .enumerate()
+        .map(|(i, v)| {
+            let mut v = v.clone();
+            match (battery[i].count_of, &filtered[i]) {
+                (Some(of), Some(_)) => {
+                    if let Some(rows) = &filtered[of] {
+                        v["results"][0]["result"] = json!([rows.len()]);
+                    }
+                }
+                (None, Some(rows)) => v["results"][0]["result"] = Json::Array(rows.clone()),
+                _ => {}
+            }
+            v
+        })
+        .collect()
+}
+
+fn run_purge(c: &PurgeCase, ctx: &mut CaseCtx) -> Result<(), Fail> {
+    let battery = purge_battery();
+    let mut w = harness(World::new("c18x"))?;
+    let mut labels: BTreeSet<String> = BTreeSet::new();
+    // the victim: an element nothing refers to (the default reference policy
+    // refuses to purge anything else)
+    let s0 = w.seed.s[0].clone();
+    let (victim, kind) = match c.victim % 4 {
+        0 => {
+            let (d, b) = w.kml("victim", "CREATE CONCEPT ?n { TYPE \"Service\" NAME \"victim\" SET ATTRIBUTES {tier: 4, note: \"to be purged\"} }", Json::Null);
+            if d != Done::Committed {
+                return harness(Err(format!("the victim was not created: {d:?}")));
+            }
+            let id = harness(crate::common::handle(&b, "n"))?;
+            // first in the list of services, so index 0 aims at it
+            w.m.concepts.insert(0, Concept { id: id.clone(), name: "victim".into(), ty: 0, st: St::Active, deps: vec![] });
+            (id, "concept")
+        }
+        1 => {
+            let (d, b) = w.kml("victim", "CREATE EVIDENCE ?e { SET FIELDS { evidence_class: \"user_statement\", payload: \"to be purged\" } }", Json::Null);
+            if d != Done::Committed {
+                return harness(Err(format!("the victim was not created: {d:?}")));
+            }
+            let id = harness(crate::common::handle(&b, "e"))?;
+            // beyond the three evidence records claims can cite
+            w.m.evidence.push(Evidence { id: id.clone(), st: St::Active, corrected: false });
+            w.m.evidence.push(Evidence { id: id.clone(), st: St::Purged, corrected: false });
+            w.m.evidence.swap(2, 3);
+            (id, "evidence")
+        }
+        2 => {
+            let (d, b) = w.kml("victim", "ENSURE PROPOSITION ?p (:s, \"mentions\", :o)", json!({"s": crate::common::endpoint(&w.seed.s[2]), "o": crate::common::endpoint(&s0)}));
+            if d != Done::Committed {
+                return harness(Err(format!("the victim was not created: {d:?}")));
+            }
+            let id = harness(crate::common::handle(&b, "p"))?;
+            w.m.props.push(Prop { id: id.clone(), subj: w.seed.s[2].clone(), pred: "mentions", obj: s0.clone(), st: St::Active });
+            (id, "proposition")
+        }
+        _ => {
+            let (d, b) = w.kml(
+                "victim",
+                "ASSERT ?x (:s, \"mentions\", :o) { by: :by, mode: \"stated\", stance: \"support\", confidence: 0.5 }",
+                json!({"s": crate::common::endpoint(&w.seed.s[1]), "o": crate::common::endpoint(&s0), "by": crate::common::endpoint(&w.seed.a[1])}),
+            );
+            if d != Done::Committed {
+                return harness(Err(format!("the victim was not created: {d:?}")));
+            }
+            let id = harness(crate::common::handle(&b, "x"))?;
+            let p = harness(crate::common::handle(&b, "x#proposition"))?;
+            w.m.props.push(Prop { id: p.clone(), subj: w.seed.s[1].clone(), pred: "mentions", obj: s0.clone(), st: St::Active });
+            w.m.assertions.push(Assertion { id: id.clone(), prop: p, subj: w.seed.s[1].clone(), pred: "mentions", obj: s0.clone(), life: Life::Active, st: St::Active });
+            (id, "assertion")
+        }
+    };
+    labels.insert(format!("victim:{kind}"));
+    let mut params = w.battery_params();
+    params.insert("victim".into(), json!(victim));
+    let qs: Vec<&Q> = battery.iter().map(|p| &p.q).collect();
+    let record_p = |w: &World| -> Result<Recording, String> {
+        let (seq, token, _) = w.snapshot()?;
+        Ok(Recording { seq, after_stmt: w.log.len().saturating_sub(1), tx: None, at: None, token, results: qs.iter().map(|q| ask(w, q, "", &params)).collect() })
+    };
+    // expected[k] = what recording k must replay as (changes at the purge)
+    let mut recs: Vec<Recording> = vec![harness(record_p(&w))?];
+    let mut expected: Vec<Vec<Json>> = vec![recs[0].results.clone()];
+    let mut purged = false;
+    let mut purged_at = 0usize;
+    let mut replays = 0u64;
+    let mut nontrivial = 0u64;
+    let mut visible_before = 0u64;
+
+    let check_all = |w: &World, recs: &Vec<Recording>, expected: &Vec<Vec<Json>>, purged: bool, purged_at: usize| -> Result<(u64, u64), Fail> {
+        let (mut n, mut nt) = (0, 0);
+        for (k, rec) in recs.iter().enumerate() {
+            let as_of = format!(" AS OF SEQ {}", rec.seq);
+            for (i, q) in qs.iter().enumerate() {
+                let got = ask(w, q, &as_of, &params);
+                n += 1;
+                let want = &expected[k][i];
+                if same(want, &got) == Same::No {
+                    let after_purge = purged && k < purged_at;
+                    return Err(Fail {
+                        sig: format!("purge:{}:{}", if after_purge { "purged-element-is-not-the-only-difference" } else { "result-differs" }, q.family),
+                        msg: format!(
+                            "the read recorded live at sequence {} and replayed AS OF SEQ {} {} differs from {}\n  query: {}\n  parameters: {}\n  first difference at {}\n  history:\n{}",
+                            rec.seq,
+                            rec.seq,
+                            if after_purge { format!("after {victim} was purged") } else { "later".to_string() },
+                            if after_purge { format!("the recording without the rows about {victim}") } else { "the recording".to_string() },
+                            one_line(&q.text(&as_of)),
+                            Json::Object(params.clone()),
+                            first_diff(want, &got, "").unwrap_or_default(),
+                            history_text(w)
+                        ),
+                    });
+                }
+                if purged && k < purged_at && *want != rec.results[i] {
+                    nt += 1;
+                }
+            }
+        }
+        Ok((n, nt))
+    };
+
+    let step = |w: &mut World, stmt: Option<&Stmt>, recs: &mut Vec<Recording>, expected: &mut Vec<Vec<Json>>, purged: &mut bool, purged_at: &mut usize, labels: &mut BTreeSet<String>| -> Result<(), Fail> {
+        match stmt {
+            Some(s) => {
+                let done = w.apply(s);
+                labels.insert(format!("stmt:{}:{}", s.kind(), done.tag()));
+            }
+            None => {
+                let referenced = w.m.referenced(&victim);
+                let (done, _) = w.kml("purge", "PURGE :x CONFIRM \"PURGE\"", json!({"x": victim}));
+                labels.insert(format!("purge:{}{}", done.tag(), if referenced { ":victim_was_referenced" } else { "" }));
+                if done == Done::Committed {
+                    *purged = true;
+                    *purged_at = recs.len();
+                    w.set_state(&victim, St::Purged);
+                    for (k, rec) in recs.iter().enumerate() {
+                        expected[k] = without(&rec.results, &battery, &victim);
+                    }
+                }
+            }
+        }
+        let (seq, _, _) = harness(w.snapshot())?;
+        if seq != recs.last().unwrap().seq {
+            let r = harness(record_p(w))?;
+            expected.push(r.results.clone());
+            recs.push(r);
+        }
+        Ok(())
+    };
+
+    for s in &c.before {
+        step(&mut w, Some(s), &mut recs, &mut expected, &mut purged, &mut purged_at, &mut labels)?;
+        let (n, nt) = check_all(&w, &recs, &expected, purged, purged_at)?;
+        replays += n;
+        nontrivial += nt;
+    }
+    for rec in &recs {
+        if rec.results.iter().any(|r| mentions(r, &victim)) {
+            visible_before += 1;
+        }
+    }
+    step(&mut w, None, &mut recs, &mut expected, &mut purged, &mut purged_at, &mut labels)?;
+    let (n, nt) = check_all(&w, &recs, &expected, purged, purged_at)?;
+    replays += n;
+    nontrivial += nt;
+    for s in &c.after {
+        step(&mut w, Some(s), &mut recs, &mut expected, &mut purged, &mut purged_at, &mut labels)?;
+        let (n, nt) = check_all(&w, &recs, &expected, purged, purged_at)?;
+        replays += n;
+        nontrivial += nt;
+    }
+    ctx.nontrivial = purged && nontrivial > 0;
+    ctx.count("replays", replays);
+    ctx.count("replays_where_the_purge_removed_rows", nontrivial);
+    ctx.count("recordings_showing_the_victim_before_the_purge", visible_before);
+    ctx.count("recordings", recs.len() as u64);
+    for l in labels {
+        ctx.label(l);
+    }
+    Ok(())
+}
+
+// ---------------------------------------------------------------------------
+// sub-check: regressions
+// ---------------------------------------------------------------------------
+
+/// Fixed regression inputs: the minimal reproductions of defects this check
+/// found (each passes on a repaired tree).
+#[derive(Clone, Debug, Serialize, Deserialize)]
+pub enum Regression {
+    /// `explicit-state-matcher-ignored-as-of`: an element pattern that names a
+    /// `state` value, read live and AS OF the present sequence, after the
+    /// element was archived / tombstoned. pattern: CONCEPT / ASSERTION /
+    /// EVIDENCE; with_id adds `id: :x` to the matcher
+    ExplicitState { pattern: String, tombstone: bool, with_id: bool },
+}
+
+fn regressions() -> Vec<Regression> {
+    let mut out = vec![];
+    for pattern in ["CONCEPT", "ASSERTION", "EVIDENCE"] {
+        for tombstone in [false, true] {
+            for with_id in [false, true] {
+                out.push(Regression::ExplicitState { pattern: pattern.to_string(), tombstone, with_id });
+            }
+        }
+    }
+    out
+}
+
+fn run_regression(c: &Regression, ctx: &mut CaseCtx) -> Result<(), Fail> {
+    match c {
+        Regression::ExplicitState { pattern, tombstone, with_id } => {
+            let mut w = harness(World::new("c18r"))?;
+            let target = match pattern.as_str() {
+                "CONCEPT" => w.seed.s[1].clone(),
+                "ASSERTION" => w.seed.x0.clone(),
+                _ => w.seed.e[1].clone(),
+            };
+            let (verb, state) = if *tombstone { ("TOMBSTONE", "tombstoned") } else { ("ARCHIVE", "archived") };
+            let (done, _) = w.kml("regression", &format!("{verb} :x"), json!({"x": target}));
+            if done != Done::Committed {
+                return harness(Err(format!("{verb} {target} did not commit: {done:?}")));
+            }
+            let (seq, _, _) = harness(w.snapshot())?;
+            let matcher = if *with_id { format!("{{id: :x, state: \"{state}\"}}") } else { format!("{{state: \"{state}\"}}") };
+            let text = format!("FIND(?x.id, ?x._system.version) WHERE {{ ?x {pattern} {matcher} }}");
+            let live = normalise(&w.env.exec(&text, json!({"x": target})));
+            let then = normalise(&w.env.exec(&format!("{text} AS OF SEQ {seq}"), json!({"x": target})));
+            ctx.nontrivial = live["results"][0]["result"].as_array().map(|a| !a.is_empty()).unwrap_or(false);
+            if !ctx.nontrivial {
+                return harness(Err(format!("`{text}` does not find the {state} element live: {live}")));
+            }
+            if live != then {
+                return Err(Fail {
+                    sig: SIG_STATE.into(),
+                    msg: format!(
+                        "`{text}` answers differently live and AS OF the present sequence {seq}\n  {}\n  history:\n{}",
+                        first_diff(&live, &then, "").unwrap_or_default(),
+                        history_text(&w)
+                    ),
+                });
+            }
+            ctx.label(format!("explicit_state:{pattern}:{state}"));
+            Ok(())
+        }
+    }
+}
+
+// ---------------------------------------------------------------------------
+
+/// Development aid: `VERIF_C18_CASES=n` runs n histories in the quick tier.
+fn cases_override(n: u32) -> u32 {
+    std::env::var("VERIF_C18_CASES").ok().and_then(|s| s.parse().ok()).unwrap_or(n)
+}
 
 pub fn run(r: &mut Runner) {
-    r.inconclusive("C18 is not built yet");
+    r.assume("the coordinates of a read are its request echo (request_id, op_id), the snapshot context / token (response.snapshot, results[].context.snapshot_seq, results[].context.cursor) and the `snapshot_seq` DESCRIBE SCHEMA ENVIRONMENT AS OF adds to its answer; only these are removed before a replay is compared with its recording (none of the first two groups is emitted by the pinned engine)");
+    r.assume("inside a projected belief the ledger's id lists and a slot's candidate list are sets: a replay that equals its recording after sorting exactly these lists (non-integer numbers within 1e-9) is accepted and counted as equal_up_to_set_order; a slot's `leading` is compared exactly unless two candidates tie for the highest support");
+    r.assume("every projection is evaluated FOR TIME 2026-01-01T00:00:00Z; timestamps the engine stamped are compared only with themselves (recorded vs replayed from the same nexus); AS OF TIME is used only for a commit whose timestamp no later journalled transaction shares");
+    r.assume("PURGE: the victim is an element nothing refers to (the default reference policy), so the rows a purge may remove from the past are exactly the rows that contain its id");
+    r.set_case_timeout_ms(240_000);
+    let cfg = Cfg::from(r);
+    r.sub_enum(
+        "regressions",
+        "the fixed list of minimal reproductions of defects this check found, each read live and AS OF the present sequence: an element pattern naming a `state` value (CONCEPT / ASSERTION / EVIDENCE x archived / tombstoned x with or without `id`) after the element was archived / tombstoned (signature explicit-state-matcher-ignored-as-of); non-trivial = the live read finds the element",
+        true,
+        regressions(),
+        wrap(run_regression),
+    );
+    r.sub(
+        "histories",
+        "a fresh nexus with a seed population (3 services linked in a chain, 3 status values, 3 sources, 2 evidence, 1 activity, 1 asserted status), then 6-16 generated statements: CREATE CONCEPT (attributes, structural), CREATE EVIDENCE / ACTIVITY, ENSURE PROPOSITION, ASSERT on a functional predicate with rival values and on a non-functional one (stances, modes, dyadic confidences, validity windows, evidence), ASSERT .. SUPERSEDING, multi-clause MUTATE blocks, attribute set / unset, rename, SET FACET, SET / UNSET STRUCTURAL, UPDATE .. WHERE with ADD(), proposition attributes, ARCHIVE (by id / by WHERE), TOMBSTONE, RETRACT, SUPERSEDE, CORRECT EVIDENCE, MERGE CONCEPT, SET RETENTION, TRANSITION ACTIVITY, and host activation of a second package (new type / predicate, makes `Source` ambiguous) or of version 1.1.0 of the package (adds an attribute and a predicate); a 58-read battery (concept, tuple, id forms, nested tuple, assertion, evidence, activity, structural, hop-quantified paths, NOT / OPTIONAL / UNION, FILTER functions, aggregates, ORDER BY + LIMIT + CURSOR, BELIEF, WITH EPISTEMIC, BELIEF SLOT, schema-dependent reads, DESCRIBE SCHEMA ENVIRONMENT) is recorded after every write and every recording is replayed AS OF SEQ after every later write, and AS OF TX / AS OF TIME / bound by snapshot token at the end; non-trivial = some replay's result differs from the present result of the same query",
+        (cases_override(80), 1_600),
+        hist_strategy,
+        wrap(move |c: &Hist, ctx: &mut CaseCtx| run_history(&cfg, c, ctx)),
+    );
+    r.sub(
+        "payload_immutability",
+        "a fresh nexus with the seed population, then 5-14 statements about assertions and evidence (ASSERT, SUPERSEDING, blocks, RETRACT, SUPERSEDE, CORRECT EVIDENCE, ARCHIVE, TOMBSTONE, SET RETENTION, legal hold, UPDATEs aimed at payload fields, merge / archive of what they point at, schema activation); after every statement no existing version-log row may have changed; at the end the payload fields (SPECIFICATION 13.7 / 15.5) are equal in every version-log row of every assertion / evidence id and in the element read AS OF every coordinate HISTORY ELEMENT lists; non-trivial = some id has >= 2 versions",
+        (400, 8_000),
+        payload_hist_strategy,
+        wrap(run_payload),
+    );
+    r.sub(
+        "purge",
+        "a fresh nexus with the seed population and a victim nothing refers to (concept / evidence / proposition / assertion), 1-6 statements (which may update, archive, tombstone the victim), PURGE :victim CONFIRM \"PURGE\", 0-3 more statements; a 17-read battery projecting the id of every bound element is recorded after every write and replayed AS OF SEQ after every later write: before the purge and for recordings made after it the replay equals the recording, for recordings made before it the replay equals the recording without the rows that contain the victim's id (aggregates: the count of the remaining rows); non-trivial = the purge committed and removed rows from at least one replay",
+        (120, 2_400),
+        purge_case_strategy,
+        wrap(run_purge),
+    );
 }
